@@ -165,6 +165,7 @@ def run_check(pid, module, tier, seed, replay=None):
             'configs_analysed': sorted(ctx.configs_used),
             'functions_analysed': sorted(ctx.analysed),
             'floors': getattr(module, 'FLOORS', {}),
+            'normalisation': {c: {k: v for k, v in f.normalisation.items() if v} for c, f in ctx._facts.items() if any(f.normalisation.values())},
             'known_findings_matched': [k[0] for k in knowns],
             'exhaustive': False,
         },
